@@ -1958,6 +1958,42 @@ def c15_user_template_for(r, seed, resname=None):
     return (resname or r["name"], atoms, bonds, True)
 
 
+def c15_vs_sweep_worlds(labels=None):
+    """family (T2) of the thorough tier: every virtual-site kind x parameter set x base structure x order of the defining atoms x site listed first / last
+    (centre of mass also with equal masses); `labels` restricts the sweep to those kinds.  Yields (ident, add() keyword arguments) with
+    ident = (kind label, parameter set, base structure, atom order, site listed first, equal masses)"""
+    tail = Res("TL", [("x", "P", 72.0), ("y", "Q", 36.0)], bonds=[("x", "y", 0.3)])
+    for label, section, funct, ndef, psets in c15_vs_kinds():
+        if labels is not None and label not in labels:
+            continue
+        for pi, params in enumerate(psets):
+            for bi, (bname, n, edges) in enumerate(C15_VS_BASES):
+                base = c15_generated_residue("VS", n, edges, seed=11 + bi + 3 * pi)
+                real = [a[0] for a in base["atoms"]]
+                for oi, order in enumerate((real, real[1:] + real[:1])):
+                    for site_first in (False, True):
+                        for eq in ((False, True) if (section == "virtual_sitesn" and funct == 2) else (False,)):
+                            r = c15_with_site(base, [(section, "v", list(order[:ndef]), funct, list(params))], site_first, equal_masses=eq)
+                            r["name"] = label.upper().replace("-", "")[:5]
+                            mol = [r, tail] if (oi + bi) % 2 == 0 else [tail, r, tail]
+                            yield (label, pi, bi, oi, site_first, eq), dict(
+                                moltypes={"M": mol}, counts=[("M", 1)], seed=("t2", label, pi, bi, oi, site_first), family="virtual sites",
+                                what=f"virtual site {section} funct {funct} {params} from {order[:ndef]} on a {bname}" + (" (equal masses)" if eq else ""))
+
+
+# ---- witness worlds (quick tier): the members of family (T2) on which input classes of their own were observed, ONE per class, on the
+# first base structure (chain of 4), defining atoms in listing order, site listed after the real atoms.
+# They are produced by the sweep the thorough tier enumerates (same topology, same seed) and evaluated by c15_world like every other world.
+C15_WITNESS = (("vs1", 0, 0, 0, False, False),          # [ virtual_sites1 ]
+               ("vs2fd", 0, 0, 0, False, False),        # [ virtual_sites2 ] funct 2, a = 0.1
+               ("vsn-cow-2", 1, 0, 0, False, False))    # [ virtual_sitesn ] funct 3, two atom-weight pairs with weights 1 and 2
+
+
+def c15_witness_worlds():
+    found = {ident: kw for ident, kw in c15_vs_sweep_worlds(labels={w[0] for w in C15_WITNESS}) if ident in C15_WITNESS}
+    return [found[ident] for ident in C15_WITNESS]
+
+
 def c15_thorough_jobs(ctx, d, add):
     """add(moltypes, counts, user=..., what=..., skip_filter=..., seed=..., family=...)"""
     tail = Res("TL", [("x", "P", 72.0), ("y", "Q", 36.0)], bonds=[("x", "y", 0.3)])
@@ -1972,19 +2008,8 @@ def c15_thorough_jobs(ctx, d, add):
                 add({"M": [tail, r, r, tail]}, [("M", 2)], what=f"generated residue on graph {n}:{list(edges)} conformation {conf}, repeated in a chain", seed=("t1c", si, conf, layout),
                     family="structures")
     # (T2) every virtual-site kind x parameter set x base structure x order of the defining atoms x site listed first / last
-    for label, section, funct, ndef, psets in c15_vs_kinds():
-        for pi, params in enumerate(psets):
-            for bi, (bname, n, edges) in enumerate(C15_VS_BASES):
-                base = c15_generated_residue("VS", n, edges, seed=11 + bi + 3 * pi)
-                real = [a[0] for a in base["atoms"]]
-                for oi, order in enumerate((real, real[1:] + real[:1])):
-                    for site_first in (False, True):
-                        for eq in ((False, True) if (section == "virtual_sitesn" and funct == 2) else (False,)):
-                            r = c15_with_site(base, [(section, "v", list(order[:ndef]), funct, list(params))], site_first, equal_masses=eq)
-                            r["name"] = label.upper().replace("-", "")[:5]
-                            mol = [r, tail] if (oi + bi) % 2 == 0 else [tail, r, tail]
-                            add({"M": mol}, [("M", 1)], what=f"virtual site {section} funct {funct} {params} from {order[:ndef]} on a {bname}" + (" (equal masses)" if eq else ""),
-                                seed=("t2", label, pi, bi, oi, site_first), family="virtual sites")
+    for _ident, kw in c15_vs_sweep_worlds():
+        add(**kw)
     # several sites of different kinds in one residue (each defined from real atoms only)
     kinds = [k for k in c15_vs_kinds() if k[0] not in ("vs1", "vs2fd") and not k[0].startswith("vsn-cow") and not k[0].startswith("vsn-com")]
     for mi in range(40):
@@ -2153,6 +2178,9 @@ def c15_jobs(ctx, d):
         add({"M": [one, tail]}, [("M", 1)], user=dict(templates=[t_one_nobonds], volumes=[("TL", 0.3)], volumes_first=vf), what="one-atom template without bonds section")
     if ctx.thorough:
         c15_thorough_jobs(ctx, d, add)
+    else:       # the witness worlds of classes that otherwise only family (T2) of the thorough tier reaches (the thorough tier enumerates them there)
+        for kw in c15_witness_worlds():
+            add(**dict(kw, family="witness"))
     return jobs
 
 
@@ -2199,6 +2227,7 @@ def run_c15(ctx, res):
                 res.violations.append(Violation("c15-templates", _short(f"{bad[1]}  [{job['what']}]", 900), inputs=desc, detail=bad[1], replayed=True, finding_key=bad[0]))
     res.violations += [v for _size, v in smallest.values()][:25]
     nvs = len(c15_vs_residues(ctx))
+    nwitness = families.get("witness", 0)
     res.bound = (f"{len(jobs)} topologies read from files and run through GenerateTemplates as gen_coords does: 13 residue shapes (1 atom, chains 2-5 with bonds/constraints/angles, "
                  f"rings 3-5, stars 4-5 with an improper, two with targets that cannot be met) alone and repeated; {nvs} virtual-site residues (virtual_sites2, virtual_sites3 funct 1-4, virtual_sites4 funct 2, "
                  "virtual_sitesn funct 1 and 2, 2-4 defining atoms, 3-4 parameter sets each, two sites in one residue); 8 molecule mixes (equal residue name / different atoms, "
@@ -2206,7 +2235,9 @@ def run_c15(ctx, res):
                  "atom names and bond count but differ in connectivity (chains abcd/dcab/acbd, abc/acb, stars, rings, triangle+tail); chiral centres with a type-2 improper of +-35.26 / +-120 "
                  f"degrees in 3 atom orders x {4 if not ctx.thorough else 12} seeds of the random initial layout; 16 build files with [ template ] / [ volumes ] in both orders "
                  "(template only, template + size, sizes only, two templates, residue name shared by different residues, one-atom templates with and without a bonds section)"
-                 + (c15_thorough_bound_text(families) if ctx.thorough else "")
+                 + (c15_thorough_bound_text(families) if ctx.thorough else
+                    f"; {nwitness} witness worlds (members of the VIRTUAL SITES sweep the thorough tier enumerates, one per input class observed there, each on a chain of 4 atoms next to "
+                    "a two-atom residue): virtual_sites1; virtual_sites2 funct 2; virtual_sitesn funct 3 with two atom-weight pairs (weights 1, 2)")
                  + (f".  Compared (residue instances over all worlds): {totals.get('optimised', 0)} templates reported optimised checked against their targets ({totals.get('not_optimised', 0)} reported "
                     f"not optimised), {totals.get('sites', 0)} virtual sites against the GROMACS construction, {totals.get('user_templates', 0)} user templates and {totals.get('user_sizes', 0)} "
                     f"user sizes against the build file, {totals.get('iso_pairs', 0)} isomorphic and {totals.get('other_pairs', 0)} non-isomorphic residue pairs for sharing" if ctx.thorough else "")
@@ -2215,10 +2246,8 @@ def run_c15(ctx, res):
                 "the verdict of the last optimize_geometry call (recorded by a pass-through wrapper) decides whether the targets written in the topology must hold within 0.05 nm / 5 degrees; "
                 "non-trivial iff the residue has >= 3 atoms, a virtual site, a partner residue to share with or differ from, or a build file")
     res.exhaustive = True
-    if ctx.thorough:
-        res.assumptions.append("bounded: virtual_sitesn funct 3 is written as GROMACS reads it ('site 3 atom weight atom weight ...'); virtual_sites4 funct 1 (removed from GROMACS) is not exercised")
-    else:
-        res.assumptions.append("bounded: virtual_sitesn funct 3 (explicit weights) is not exercised: the topology reader has no representation for weights")
+    res.assumptions.append("bounded: virtual_sitesn funct 3 is written as GROMACS reads it ('site 3 atom weight atom weight ...'); virtual_sites4 funct 1 (removed from GROMACS) is not exercised"
+                           + ("" if ctx.thorough else "; virtual_sites1, virtual_sites2 funct 2 and virtual_sitesn funct 3 are exercised by one witness world each (the thorough tier sweeps them)"))
 
 
 # ==========================================================================================
@@ -2614,45 +2643,86 @@ def c11_slow_template(entries):
     return False
 
 
+_c11_chain = lambda seq: tuple((i, i + 1) for i in range(len(seq) - 1))       # noqa: E731
+C11_NAMES_X = ("A", "B", "X")
+# the sequence contexts of a generated block X: X alone; X:2; A X B via -seq; branched X(A)(X-B) via .json
+C11_CONTEXTS = [("seq", ("X",), ()), ("seq", ("X", "X"), ((0, 1),)), ("seq", ("A", "X", "B"), _c11_chain("AXB")),
+                ("json", ("X", "A", "X", "B"), ((0, 1), (0, 2), (2, 3)))]
+# edge inputs: one entry guarded by #ifdef AND #ifndef (section, atoms, parameters); virtual_sitesn with explicit weights (site + defining atoms, 'funct weights')
+C11_EDGE_BOTH_GUARDS = (("bonds", ("BB", "S2"), "1 0.31 1000"), ("angles", ("BB", "S1", "S2"), "1 120 50"), ("position_restraints", ("S1",), "1 500 0 500"),
+                        ("virtual_sites2", ("V1", "BB", "S1"), "1 0.5"))
+C11_EDGE_WEIGHTS = ((("V1", "BB", "S1"), "3 1.0 3.0"), (("V1", "BB", "S1", "S2"), "3 1 2 1"), (("V1", "S1", "S2", "S3", "S4"), "3 0.5 0.25 0.125 0.125"))
+
+
+def c11_sweep_world(section, variant, gi, graph):
+    """family (S): block X with `section` in parameter variant `variant` under guard pattern number `gi`, in sequence context `graph`"""
+    gname, pattern = C11_GUARD_PATTERNS[gi]
+    entries = c11_section_entries(section, variant, pattern)
+    block = c11_gen_block("X", entries, style=(variant + gi) % C11_ATOM_STYLES, nrexcl=1 + (variant + gi) % 3)
+    link = c11_link_text(("plain", "guarded", "rich")[(variant + gi) % 3], C11_NAMES_X)
+    ff = block + C11_BLOCKS["A"] + C11_BLOCKS["B"] + link
+    return dict(family="sweep", files=(("ff.ff", ff),), graph=graph, focus=section, gen_coords=not c11_slow_template(entries),
+                what=f"section {section}, parameters from variant {variant}, guards: {gname}")
+
+
+def c11_both_guards_world(section, atoms, params, graph):
+    """family (E): block X with one entry of `section` guarded by #ifdef AND #ifndef"""
+    block = c11_gen_block("X", [(section, atoms, params, {"ifdef": "GX", "ifndef": "GY"})])
+    ff = block + C11_BLOCKS["A"] + C11_BLOCKS["B"] + c11_link_text("plain", C11_NAMES_X)
+    return dict(family="edge", files=(("ff.ff", ff),), graph=graph, focus=section, what=f"section {section}: one entry with both an ifdef and an ifndef guard",
+                extra={"both_guards": True})
+
+
+def c11_weights_world(atoms, weights, graph):
+    """family (E): block X with a virtual_sitesn construction of function type 3 (centre of weights)"""
+    block = c11_gen_block("X", [("virtual_sitesn", atoms, weights, {})])
+    ff = block + C11_BLOCKS["A"] + C11_BLOCKS["B"] + c11_link_text("plain", C11_NAMES_X)
+    return dict(family="edge", files=(("ff.ff", ff),), graph=graph, focus="virtual_sitesn",
+                what=f"virtual_sitesn funct 3 (centre of weights) over {len(atoms) - 1} atoms, weights {weights[2:]}")
+
+
+def c11_generated_job(ctx, d, jid, family, files, graph, focus=None, gen_coords=True, jopts=None, what="", extra=None):
+    """the job of a world that carries its own input files (thorough families and the witness worlds)"""
+    return dict(extra or {}, dir=d, id=jid, links=family, graph=graph, files=files, focus=focus, json=jopts, what=what,
+                seed=_seed_of("c11", ctx.seed, jid), run_gen_coords=gen_coords, family=family)
+
+
+# ---- witness worlds (quick tier): the minimal members of the thorough families (S) and (E) on which input classes of their own were
+# observed, ONE per class, in the smallest sequence context (-seq X:1).  They are built by the constructors the thorough tier enumerates
+# with and run through c11_world like every other world; the thorough tier meets the same worlds inside its families.
+def c11_witness_worlds():
+    x1 = C11_CONTEXTS[0]
+    return [c11_both_guards_world(*C11_EDGE_BOTH_GUARDS[0], x1),         # a bond guarded by #ifdef GX and #ifndef GY
+            c11_weights_world(*C11_EDGE_WEIGHTS[0], x1),                 # virtual_sitesn funct 3, two atom-weight pairs
+            c11_sweep_world("virtual_sites2", 3, 0, x1)]                 # virtual_sites2 funct 2 ('2 0.1'), unguarded: gen_coords is run on the file
+
+
 def c11_thorough_jobs(ctx, d, first_id):
     """the thorough-only families; every job carries its own input files"""
     jobs, seen = [], set()
 
-    def add(family, files, graph, focus=None, gen_coords=True, jopts=None, what=""):
+    def add(family, files, graph, focus=None, gen_coords=True, jopts=None, what="", extra=None):
         key = (tuple(files), graph, json.dumps(jopts, sort_keys=True))
         if key in seen:
             return
         seen.add(key)
-        jid = first_id + len(jobs)
-        jobs.append(dict(dir=d, id=jid, links=family, graph=graph, files=files, focus=focus, json=jopts, what=what,
-                         seed=_seed_of("c11", ctx.seed, jid), run_gen_coords=gen_coords, family=family))
-    chain = lambda seq: tuple((i, i + 1) for i in range(len(seq) - 1))       # noqa: E731
-    names_x = ("A", "B", "X")
-    contexts = [("seq", ("X",), ()), ("seq", ("X", "X"), ((0, 1),)), ("seq", ("A", "X", "B"), chain("AXB")),
-                ("json", ("X", "A", "X", "B"), ((0, 1), (0, 2), (2, 3)))]
+        jobs.append(c11_generated_job(ctx, d, first_id + len(jobs), family, files, graph, focus=focus, gen_coords=gen_coords, jopts=jopts, what=what, extra=extra))
+    chain = _c11_chain
+    names_x = C11_NAMES_X
+    contexts = C11_CONTEXTS
     # (S) one section x parameter variant x guard pattern, in four sequence contexts
     for section, cat in C11_CATALOGUE.items():
         for variant in range(len(cat["params"])):
-            for gi, (gname, pattern) in enumerate(C11_GUARD_PATTERNS):
-                entries = c11_section_entries(section, variant, pattern)
-                block = c11_gen_block("X", entries, style=(variant + gi) % C11_ATOM_STYLES, nrexcl=1 + (variant + gi) % 3)
-                link = c11_link_text(("plain", "guarded", "rich")[(variant + gi) % 3], names_x)
-                ff = block + C11_BLOCKS["A"] + C11_BLOCKS["B"] + link
+            for gi in range(len(C11_GUARD_PATTERNS)):
                 for graph in contexts:
-                    add("sweep", (("ff.ff", ff),), graph, focus=section, gen_coords=not c11_slow_template(entries), what=f"section {section}, parameters from variant {variant}, guards: {gname}")
+                    add(**c11_sweep_world(section, variant, gi, graph))
     # (E) edge inputs: one interaction guarded by #ifdef AND #ifndef; virtual_sitesn with explicit weights (funct 3); long chains (two-digit residue ids, 3-digit atom indices)
-    for section, atoms, params in (("bonds", ("BB", "S2"), "1 0.31 1000"), ("angles", ("BB", "S1", "S2"), "1 120 50"), ("position_restraints", ("S1",), "1 500 0 500"),
-                                   ("virtual_sites2", ("V1", "BB", "S1"), "1 0.5")):
-        block = c11_gen_block("X", [(section, atoms, params, {"ifdef": "GX", "ifndef": "GY"})])
-        ff = block + C11_BLOCKS["A"] + C11_BLOCKS["B"] + c11_link_text("plain", names_x)
+    for section, atoms, params in C11_EDGE_BOTH_GUARDS:
         for graph in contexts[:2]:
-            add("edge", (("ff.ff", ff),), graph, focus=section, what=f"section {section}: one entry with both an ifdef and an ifndef guard")
-            jobs[-1]["both_guards"] = True
-    for atoms, weights in ((("V1", "BB", "S1"), "3 1.0 3.0"), (("V1", "BB", "S1", "S2"), "3 1 2 1"), (("V1", "S1", "S2", "S3", "S4"), "3 0.5 0.25 0.125 0.125")):
-        block = c11_gen_block("X", [("virtual_sitesn", atoms, weights, {})])
-        ff = block + C11_BLOCKS["A"] + C11_BLOCKS["B"] + c11_link_text("plain", names_x)
+            add(**c11_both_guards_world(section, atoms, params, graph))
+    for atoms, weights in C11_EDGE_WEIGHTS:
         for graph in contexts[:2]:
-            add("edge", (("ff.ff", ff),), graph, focus="virtual_sitesn", what=f"virtual_sitesn funct 3 (centre of weights) over {len(atoms) - 1} atoms, weights {weights[2:]}")
+            add(**c11_weights_world(atoms, weights, graph))
     for seq in ("X" * 10, "AB" * 6, "XAXB" * 5, "B" * 25, "X" * 21):
         block = c11_gen_block("X", c11_section_entries("angles", 0, C11_GUARD_PATTERNS[5][1]) + c11_section_entries("virtual_sitesn", 2, C11_GUARD_PATTERNS[3][1]), style=2)
         for lk in ("plain", "rich"):
@@ -2964,6 +3034,10 @@ def run_c11(ctx, res):
         nfixed = len(jobs)
         if ctx.thorough:
             jobs += c11_thorough_jobs(ctx, d, first_id=len(jobs))
+        else:       # the witness worlds of classes that otherwise only the thorough families reach (the thorough tier enumerates them there)
+            for w in c11_witness_worlds():
+                jobs.append(c11_generated_job(ctx, d, len(jobs), **w))
+        nwitness = len(jobs) - nfixed if not ctx.thorough else 0
         out = _pool_map(c11_world, jobs, chunksize=1 if not ctx.thorough else 8)
     finally:
         shutil.rmtree(d, ignore_errors=True)
@@ -2998,19 +3072,22 @@ def run_c11(ctx, res):
             elif len(res.violations) < 25 and bad[0] not in {v.finding_key for v in res.violations}:
                 res.violations.append(Violation("c11-itp-roundtrip", _short(f"{bad[1]}  [{json.dumps(desc)}]", 900), inputs=desc, detail=bad[1], replayed=True, finding_key=bad[0]))
     res.violations += [v for _size, v in smallest.values()][:25]
-    res.bound = (f"{len(jobs)} worlds = {len(C11_LINKS)} force fields: 5 blocks of 2-6 atoms covering every moleculetype section the topology reader registers and the writer emits "
+    res.bound = (f"{len(jobs)} worlds = " + (f"{nwitness} witness worlds + " if nwitness else "") + f"{len(C11_LINKS)} force fields: 5 blocks of 2-6 atoms covering every moleculetype section the topology reader registers and the writer emits "
                  "(bonds, constraints, angles, proper/improper dihedrals, exclusions, pairs, pairs_nb, virtual_sites2/3/4/n, position_, distance_, dihedral_, orientation_, angle_ and "
                  "angle_z restraints, cmap), #ifdef- and #ifndef-guarded entries in most of them, masses present and absent, nrexcl 1-3; link sets: plain, guarded angles/dihedrals/constraints, "
                  "partial (links missing for block C), guarded backbone bond, and four sets in which the junction A-A / B-B / A-B / every junction is ONLY a constraint while the others are bonds "
                  "x residue graphs (chains of 1-6 via -seq, branched graphs of 3-5 via a .json sequence file; constraint-only junction first / middle / last / repeated / absent): "
                  f"gen_params -> file -> Topology.from_gmx_topfile; {stats['atoms']} atoms and {stats['interactions']} interactions compared ({stats['guarded']} guarded); "
                  f"{stats['complete']} worlds without a missing link (residue graph compared, gen_coords run on the file), {stats['missing_links']} with missing links"
-                 + (c11_thorough_bound_text(len(jobs) - nfixed, families, sections_seen) if ctx.thorough else "")
+                 + (c11_thorough_bound_text(len(jobs) - nfixed, families, sections_seen) if ctx.thorough else
+                    f".  WITNESS WORLDS ({nwitness}; members of the SWEEP / EDGE families the thorough tier enumerates, one per input class observed there, each a generated 5-atom block X "
+                    "asked for with -seq X:1): one bond guarded by #ifdef AND #ifndef; virtual_sitesn funct 3 with two atom-weight pairs; virtual_sites2 funct 2")
                  + (f".  Violation classes seen (worlds): {classes}" if classes else ""))
     res.rule = ("the built molecule is captured by a pass-through wrapper around ApplyModifications.run_molecule inside gen_params; atoms compared in index order, interactions as a multiset of "
                 "(section, atoms, parameters numerically, guard); non-trivial iff >= 2 residues"
-                + (" or, in a one-residue section-sweep world, the section under test is present in the built molecule; generated worlds are de-duplicated on (input files, residue graph, "
-                   "sequence-file options) before they are run" if ctx.thorough else ""))
+                " or, in a one-residue world with a generated block (section sweeps of the thorough tier, witness worlds), the section under test is present in the built molecule"
+                " (or gen_params refused the input)"
+                + ("; generated worlds are de-duplicated on (input files, residue graph, sequence-file options) before they are run" if ctx.thorough else ""))
     res.exhaustive = True
     res.assumptions.append("bounded: vermouth's itp writer/reader are exercised, not proved; a link counts as missing iff a requested edge has no bond or constraint between its residues")
 
